@@ -286,6 +286,11 @@ def _classify(ctx, r, d, c):
         a, b, neg = sd[2], sd[3], sd[1] == "Ne"
     elif sd[0] == "call" and IS_EQ.search(sd[1]) and len(sd[2]) == 2:
         a, b, neg = sd[2][0], sd[2][1], sd[1].endswith("::ne")
+    if roots(d) == {ctx.L, ctx.R}:
+        fx = _flag_expr(ctx, sd)
+        if fx is not None:
+            r.guards.append((None, fx, "expr", (c[0], int(c[1])) if c[0] == "eq" else ("ne", tuple(int(v) for v in c[1]))))
+            return
     if a is not None and roots(a) | roots(b) == {ctx.L, ctx.R}:
         k = mk_cmp(ctx, "eqtest", a, b, kind="eqtest")
         truth = (c[0] == "eq" and int(c[1]) != 0) or (c[0] == "ne" and 0 in [int(v) for v in c[1]])
@@ -298,6 +303,57 @@ def _classify(ctx, r, d, c):
         r.guards.append((side, ("flag", canon(sd, side)), "flag", (c[0], int(c[1])) if c[0] == "eq" else ("ne", tuple(int(v) for v in c[1]))))
         return
     r.unknown.append(sym_str(d, 160))
+
+
+def _flag_expr(ctx, s):
+    """A boolean combination (==, !=, &, |, ^, !) of one-sided flags of the two operands, e.g. `l_neg != r_neg`:
+    tree of ('leaf', side, key) / ('const', v) / ('op', name, a, b) / ('not', a); None when some leaf is not a known flag.
+    A leaf counts as a flag only if the same term (for either operand) is also branched on by itself somewhere in the function —
+    this separates `l_neg != r_neg` (flags) from `l_index == r_index` (an equality test of two keys, a chain link)."""
+    s = strip(s)
+    if s[0] == "const":
+        try:
+            return ("const", int(s[1]))
+        except (TypeError, ValueError):
+            return None
+    if s[0] == "un" and s[1] == "Not":
+        a = _flag_expr(ctx, s[2])
+        return ("not", a) if a is not None else None
+    rt = roots(s)
+    if rt == {ctx.L} or rt == {ctx.R}:
+        side = ctx.L if rt == {ctx.L} else ctx.R
+        key = ("flag", canon(s, side))
+        if key in getattr(ctx, "flagset", ()):
+            return ("leaf", side, key)
+        return None
+    if s[0] == "bin" and s[1] in ("Eq", "Ne", "BitAnd", "BitOr", "BitXor"):
+        a, b = _flag_expr(ctx, s[2]), _flag_expr(ctx, s[3])
+        if a is None or b is None:
+            return None
+        return ("op", s[1], a, b)
+    return None
+
+
+def _flag_leaves(fx, out):
+    if fx[0] == "leaf":
+        out.append(fx)
+    elif fx[0] == "not":
+        _flag_leaves(fx[1], out)
+    elif fx[0] == "op":
+        _flag_leaves(fx[2], out)
+        _flag_leaves(fx[3], out)
+    return out
+
+
+def _flag_eval(fx, val):
+    if fx[0] == "const":
+        return fx[1]
+    if fx[0] == "leaf":
+        return val(fx[1], fx[2])
+    if fx[0] == "not":
+        return 0 if _flag_eval(fx[1], val) else 1
+    a, b = _flag_eval(fx[2], val), _flag_eval(fx[3], val)
+    return {"Eq": int(a == b), "Ne": int(a != b), "BitAnd": a & b, "BitOr": a | b, "BitXor": a ^ b}[fx[1]]
 
 
 def _copy_row(r):
@@ -376,7 +432,15 @@ def _finish(ctx, r, ret, sign, depth):
 def cmp_rows(ctx):
     """Rows of the decision table of comparison function ctx.fn."""
     rows = []
-    for p in tabulate(ctx.fn, ctx.P, 4096):
+    paths = tabulate(ctx.fn, ctx.P, 4096)
+    ctx.flagset = set()
+    for p in paths:
+        for cond in p.conds:
+            d = cond[0]
+            if d[0] != "discr" and roots(d) in ({ctx.L}, {ctx.R}):
+                side = ctx.L if roots(d) == {ctx.L} else ctx.R
+                ctx.flagset.add(("flag", canon(strip(d), side)))
+    for p in paths:
         r = Row()
         r.end = p.end
         r.path = p
@@ -397,6 +461,9 @@ def guard_domains(P, rows):
             if kind == "enum":
                 vn = variant_names(P, key[2]) or []
                 dom.setdefault(key, set()).update(i for i, _ in vn)
+            elif kind == "expr":
+                for lf in _flag_leaves(key, []):
+                    dom.setdefault(lf[2], {0, 1})
             else:
                 d = dom.setdefault(key, {0, 1})
                 if cons[0] == "eq":
@@ -523,7 +590,10 @@ class CmpTable:
                         continue
                     ok = True
                     for side, key, kind, cons in r.guards:
-                        v = (vl if side == ctx.L else vr)[self.keys.index(key)]
+                        if kind == "expr":
+                            v = _flag_eval(key, lambda sd_, k_: (vl if sd_ == ctx.L else vr)[self.keys.index(k_)])
+                        else:
+                            v = (vl if side == ctx.L else vr)[self.keys.index(key)]
                         if not _sat(cons, kind, v):
                             ok = False
                             break
@@ -538,9 +608,60 @@ class CmpTable:
                     self.why[(vl, vr)] = "unrecognised condition or result"
                     continue
                 ch, why = build_chain(feas)
+                if ch is not None:
+                    ch = self._resolve_ranks(ch, vl, vr)
                 self.cells[(vl, vr)] = ch
                 if ch is None:
                     self.why[(vl, vr)] = why
+
+    # -- rank functions
+    def _rank_of(self, key, v):
+        """Constant value of key term `g(&X)` for an operand whose guard values are v, when g is a workspace function that maps
+        each variant of X to a constant (a *rank function*); None otherwise."""
+        s = strip(key)
+        if s[0] != "call" or len(s[2]) != 1 or strip(s[2][0]) != ("X",):
+            return None
+        g = self.ctx.P.fns.get(s[1])
+        if g is None:
+            return None
+        vk = next((k for k in self.keys if k[0] == "discr" and strip(k[1]) == ("X",)), None)
+        if vk is None:
+            return None
+        name = dict(variant_names(self.ctx.P, vk[2]) or []).get(v[self.keys.index(vk)])
+        cache = self.__dict__.setdefault("_rank_cache", {})
+        if g.path not in cache:
+            cache[g.path] = per_variant_returns(self.ctx.P, g)
+        rets = cache[g.path].get(name)
+        if not rets:
+            return None
+        vals = set()
+        for r in rets:
+            r = strip(r)
+            if r[0] != "const":
+                return None
+            try:
+                vals.add(int(r[1]))
+            except (TypeError, ValueError):
+                return None
+        return vals.pop() if len(vals) == 1 else None
+
+    def _resolve_ranks(self, ch, vl, vr):
+        """`rank(a).cmp(&rank(b))` in a cell whose operand variants are known is the constant it evaluates to."""
+        out = []
+        for e in ch:
+            if e[0] == "cmp" and e[1] is not None and e[4]:
+                a, b = self._rank_of(e[3], vl), self._rank_of(e[3], vr)
+                if a is not None and b is not None:
+                    o = "Less" if a < b else "Greater" if a > b else "Equal"
+                    if e[1] == -1:
+                        o = FLIP[o]
+                    if o == "Equal":
+                        continue        # equal ranks: the chain continues with its next element
+                    out.append(("const", o))
+                    break               # decided: later elements are never consulted
+                    
+            out.append(e)
+        return out or [("const", "Equal")]
 
     # -- rendering
     def label(self, v):
@@ -783,7 +904,10 @@ def where(f):
 from . import finite as _finite  # noqa: E402
 
 
-def promoted_ranges(fn):
+_HELPER_CACHE = {}
+
+
+def promoted_ranges(fn, const_value=None):
     """promoted-constant symbol -> (lo, hi, inclusive) for range literals used as receivers of `contains`.
     MIR only shows `&promoted[n]` for `(121..=127).contains(&x)`; the bounds are read from the type-resolved HIR.  Literals and
     promoted symbols are paired in program order; if the counts differ nothing is resolved (the condition then stays unevaluable and
@@ -808,6 +932,9 @@ def promoted_ranges(fn):
                     vals = [hirwalk.strip(a) for a in r.get("args", [])]
                     if len(vals) == 2 and all(isinstance(v, dict) and v.get("k") == "lit" and isinstance(v.get("v"), dict) and "int" in v["v"] for v in vals):
                         lits.append((int(vals[0]["v"]["int"]), int(vals[1]["v"]["int"]), True))
+                elif r.get("k") == "path" and r.get("rk") == "Const" and const_value is not None:
+                    # a named range constant: usable only if the facts carry its (non-scalar) value
+                    lits.append(const_value(str(r.get("def", ""))))
                 elif r.get("k") == "struct" and "core::ops::range::Range" in str(r.get("adt", r.get("def", ""))):
                     fl = dict((k, hirwalk.strip(v)) for k, v in r.get("fields", []) if isinstance(v, dict))
                     st, en = fl.get("start"), fl.get("end")
@@ -815,18 +942,117 @@ def promoted_ranges(fn):
                         lits.append((int(st["v"]["int"]), int(en["v"]["int"]), "Inclusive" in str(r.get("adt", r.get("def", "")))))
     if len(lits) != len(syms):
         return {}
-    return dict(zip(syms, lits))
+    return dict((k, v) for k, v in zip(syms, lits) if v is not None)
 
 
-def tag_leaf(is_subject, t, iana, ranges=None):
+def range_const_value(P):
+    """Resolver for named range constants: (lo, hi, inclusive) from the `consts` facts when the extractor dumped a structured value
+    (today it evaluates scalar constants only, so named `RangeInclusive` constants stay unresolved -> the table is unanalysable)."""
+    def f(path):
+        for c in P.consts():
+            if c.get("path") == path:
+                v = c.get("val")
+                if isinstance(v, dict) and "start" in v and "end" in v:
+                    return int(v["start"]), int(v["end"]), "Inclusive" in str(c.get("ty", ""))
+                if isinstance(v, (list, tuple)) and len(v) >= 2 and all(isinstance(x, int) for x in v[:2]):
+                    return int(v[0]), int(v[1]), "Inclusive" in str(c.get("ty", ""))
+        return None
+    return f
+
+
+def promoted_enum_consts(fn, adt):
+    """promoted-constant symbol -> variant name, for unit variants of `adt` compared with ==/!= (`x != Type::Tag`): the MIR operand is
+    `&promoted[n]`, the variant is read from the resolved HIR; paired in program order."""
+    from . import hirwalk
+    syms = []
+    for bi, t in fn.calls():
+        name = t.get("f") or t.get("g") or ""
+        if IS_EQ.search(name):
+            for a in t["args"]:
+                x = strip(fn.sym_operand(a))
+                if x[0] == "constsym" and strip_adt(str(x[2])) == adt and x[1] not in syms:
+                    syms.append(x[1])
+    names = []
+    h = fn.hir
+    if h is not None:
+        for n in hirwalk.walk(h.get("root")):
+            if n.get("k") == "bin" and n.get("op") in ("Eq", "Ne"):
+                for side in ("a", "b"):
+                    x = hirwalk.strip(n.get(side))
+                    if isinstance(x, dict) and x.get("k") == "path" and x.get("adt") == adt and x.get("variant"):
+                        names.append(x["variant"])
+    if len(names) != len(syms):
+        return {}
+    return dict(zip(syms, names))
+
+
+def tag_leaf(is_subject, t, iana, ranges=None, P=None, dtype=None, enum_consts=None, type_index=None, depth=3):
     """Leaf valuation for pv.finite.ev: the table subject has value t; minicbor `Tag` helpers are interpreted
-    (`as_u64`, `Tag::new`, `IanaTag::tag`, `Tag == Tag`); `ranges` resolves promoted range constants (see promoted_ranges)."""
+    (`as_u64`, `Tag::new`, `IanaTag::tag`, `Tag == Tag`); `ranges` resolves promoted range constants (see promoted_ranges).
+    dtype = (predicate, index): a second subject, the `minicbor::data::Type` read from the decoder, valued by its discriminant index.
+    With P, calls of workspace predicates/helpers (`wire::is_constr_tag(tag)`) are evaluated by tabulating the callee with its
+    parameters replaced by the argument terms, under the same valuation."""
     ranges = ranges or {}
+    enum_consts = enum_consts or {}
+    type_index = type_index or {}
+
+    def type_value(x):
+        x = strip(x)
+        if dtype is not None and dtype[0](x):
+            return dtype[1]
+        if x[0] == "agg" and isinstance(x[1], str) and strip_adt(x[1]) == "minicbor::data::Type" and x[2] in type_index:
+            return type_index[x[2]]
+        if x[0] == "constsym" and x[1] in enum_consts and enum_consts[x[1]] in type_index:
+            return type_index[enum_consts[x[1]]]
+        raise _finite.NotFinite(x)
 
     def leaf(s):
         s1 = strip(s)
         if is_subject(s1):
             return t
+        if s1[0] == "discr" and dtype is not None and dtype[0](strip(s1[1])) and strip_adt(str(s1[2] if len(s1) > 2 else "")) == "minicbor::data::Type":
+            return dtype[1]
+        if s1[0] == "call" and IS_EQ.search(s1[1]) and len(s1[2]) == 2 and "minicbor::data::Tag" not in s1[1]:
+            # `datatype == Type::X` / `!=` (resolved impl or the trait's default `ne`): both sides must be head-type values
+            try:
+                eq = type_value(s1[2][0]) == type_value(s1[2][1])
+                return int(eq) if s1[1].endswith("::eq") else int(not eq)
+            except _finite.NotFinite:
+                pass
+        if s1[0] == "call" and P is not None and depth > 0:
+            g = P.fns.get(s1[1])
+            if g is not None and g.kind != "Closure" and strip_adt(g.local_ty(0)) in ("bool", "u8", "u16", "u32", "u64", "usize"):
+                sub = dict((i + 1, a) for i, a in enumerate(s1[2]))
+
+                def sm(node):
+                    if node[0] == "param" and node[1] in sub:
+                        return sub[node[1]]
+                    return None
+                ck = (id(P), g.path)
+                if ck not in _HELPER_CACHE:
+                    _HELPER_CACHE[ck] = (promoted_ranges(g, range_const_value(P)), promoted_enum_consts(g, "minicbor::data::Type"), tabulate(g, P, 512))
+                hr, he, hpaths = _HELPER_CACHE[ck]
+                rg = dict(ranges)
+                rg.update(hr)
+                ec = dict(enum_consts)
+                ec.update(he)
+                inner = tag_leaf(is_subject, t, iana, rg, P, dtype, ec, type_index, depth - 1)
+                vals = set()
+                for q in hpaths:
+                    if q.end != "return":
+                        continue
+                    ok = True
+                    for cond in q.conds:
+                        v = _finite.ev(subst(cond[0], sm), inner, 64)      # NotFinite propagates: the helper is not evaluable
+                        c = cond[1]
+                        if (c[0] == "eq" and v != int(c[1])) or (c[0] != "eq" and v in [int(x) for x in c[1]]):
+                            ok = False
+                            break
+                    if ok:
+                        vals.add(_finite.ev(subst(q.ret, sm), inner, 64))
+                if len(vals) == 1:
+                    return vals.pop()
+                raise _finite.NotFinite(s)
         if s1[0] in ("const", "bin", "un", "cast") or (s1[0] == "field" and s1[1][0] == "bin"):
             return _finite.ev(s1, leaf, 64)
         if s1[0] == "agg" and isinstance(s1[1], str) and strip_adt(s1[1]) == "minicbor::data::IanaTag" and s1[2] in iana:
@@ -901,6 +1127,13 @@ def is_error_propagation(p):
 def result_class(sym):
     """('ok', adt, variant, fields) | ('err',) | None for a Result-valued term."""
     s = strip(sym)
+    if s[0] == "call" and strip_generics(s[1]).endswith("core::result::Result::map") and len(s[2]) == 2:
+        # `d.decode_with(ctx).map(Self::Variant)`: Ok(Variant(decoded)) (errors pass through)
+        f = strip(s[2][1])
+        if f[0] == "fnconst" and "::" in f[1]:
+            adt, variant = strip_generics(f[1]).rsplit("::", 1)
+            return ("ok", strip_adt(adt), variant, (s[2][0],))
+        return None
     if s[0] == "agg" and isinstance(s[1], str) and strip_adt(s[1]) == "core::result::Result":
         if s[2] == "Err":
             return ("err",)
